@@ -225,7 +225,7 @@ func describeContHistory(h storgen.ContHistory) any {
 }
 
 func TestC20(t *testing.T) {
-	rec := evid.Start(t, "C20", "model-steered random operation sequences (≤ 25 executions × ≤ 12 operations, up to ~300 operations) on a variable-sized array [E], a constant-sized array [E; 8] and a "+
+	rec := evid.Start(t, "C20", "model-steered random operation sequences (quick: ≤ 16 executions × ≤ 12 operations; thorough: ≤ 30 × 12, i.e. up to 360 operations, bulk operations count once) on a variable-sized array [E], a constant-sized array [E; 8] and a "+
 		"dictionary {K: E} kept in account storage; E ∈ {Int, String (2–5, 200 and 600 bytes), struct with nested array, [Int] (0–5 and 130 elements)}, K ∈ {Int, String}; operations: append, appendAll, insert, "+
 		"remove, removeFirst, removeLast, bulk removal, index read/write, slice, reverse, concat, filter, map (generated pure closures), contains, firstIndex, toConstantSized/toVariableSized; dictionary insert, "+
 		"remove, index read/write/nil-assignment, containsKey, bulk insert/remove, keys/values/forEachKey/for-in enumeration (all four must agree), forEachKey with early stop; valid and invalid indices; bulk sizes "+
@@ -249,7 +249,7 @@ func TestC20(t *testing.T) {
 	}
 
 	rapid.Check(t, func(rt *rapid.T) {
-		hist := storgen.GenContHistory(storgen.FromRapid(rt), storgen.ContGenConfig{MaxExecs: 25, MaxOps: 12})
+		hist := storgen.GenContHistory(storgen.FromRapid(rt), storgen.ContGenConfig{MaxExecs: evid.N(16, 30), MaxOps: 12})
 		var facts contFacts
 		for _, eng := range host.Engines {
 			msg, f := runContHistory(hist, eng, false, nil)
